@@ -49,6 +49,9 @@ CODEC_OPS = ("decode", "decode_full", "decode_mut", "encode", "roundtrip", "reco
              "default", "alloc_decode")
 HIERARCHY_OPS = ("specialize", "try_from_parent", "to_parent")
 ENUM_OPS = ("enum_from", "enum_sweep", "enum_default")
+# Pseudo module answered by the driver itself (diagnostics, not in PROTOCOL.md): the type is
+# ignored, ops are echo <text>, panic <msg>, abort, stack_overflow, hang, alloc <bytes>.
+HARNESS_MODULE = "__harness"
 
 
 # ---------------------------------------------------------------------------
@@ -455,7 +458,7 @@ def build(modules, work_dir, profile, pdlc, target_dir, *, jobs=None, pdlc_timeo
     seen = set()
     for m in modules:
         n = m.get("name")
-        if not isinstance(n, str) or not _IDENT_RE.match(n) or n in _RESERVED_MODULE_NAMES:
+        if not isinstance(n, str) or not _IDENT_RE.match(n) or n in _RESERVED_MODULE_NAMES or n.startswith("__"):
             raise ValueError("module name %r is not a usable Rust module identifier" % (n,))
         if n in seen:
             raise ValueError("duplicate module name %r" % (n,))
@@ -496,6 +499,15 @@ def build(modules, work_dir, profile, pdlc, target_dir, *, jobs=None, pdlc_timeo
     # 2. cargo build, dropping the modules rustc rejects
     t_cargo = time.monotonic()
     executable = None
+    # Verdicts of earlier builds in this work_dir are remembered (keyed by everything that
+    # influences compilation of the module), so that a rebuild does not go through the
+    # failing attempt again and does not touch src/main.rs back and forth.
+    skeleton = _skeleton_stamp()
+    for n in list(good):
+        verdict = gens[n].get("uncompilable")
+        if verdict and verdict.get("stamp") == _module_stamp(skeleton, n, gens[n]):
+            report["uncompilable_modules"][n] = verdict["error"]
+            good.remove(n)
     with _target_lock(target_dir):
         while True:
             _write_crate(work_dir, gens, good)
@@ -522,7 +534,10 @@ def build(modules, work_dir, profile, pdlc, target_dir, *, jobs=None, pdlc_timeo
                     "cargo build failed and no module could be blamed:\n%s\n%s"
                     % ("\n".join(sum(r["errors"].values(), []) + r["other"])[-4000:], r["stderr"]))
             for mod, rendered in bad.items():
-                report["uncompilable_modules"][mod] = _ANSI_RE.sub("", "\n".join(rendered))[:2048]
+                text = _ANSI_RE.sub("", "\n".join(rendered))[:2048]
+                report["uncompilable_modules"][mod] = text
+                gens[mod]["uncompilable"] = {"stamp": _module_stamp(skeleton, mod, gens[mod]), "error": text}
+                _write_if_changed(work_dir / "gen" / (mod + ".json"), json.dumps(gens[mod]))
             good = [n for n in good if n not in bad]
 
         # 3. private copy of the binary
@@ -539,6 +554,31 @@ def build(modules, work_dir, profile, pdlc, target_dir, *, jobs=None, pdlc_timeo
         report["modules"][n] = {"types": gens[n]["types"]}
     _write_report(work_dir, report)
     return binary
+
+
+def _skeleton_stamp() -> str:
+    """Hash of everything outside the generated modules that decides whether they compile."""
+    h = hashlib.sha256()
+    for p in (TEMPLATE_DIR / "driver.rs", TEMPLATE_DIR / "Cargo.toml", REPO / "pdl-runtime" / "src" / "lib.rs",
+              REPO / "Cargo.lock"):
+        try:
+            h.update(p.read_bytes())
+        except OSError:
+            h.update(b"<missing %s>" % str(p).encode())
+    try:
+        h.update(subprocess.run(["rustc", "-V"], stdout=subprocess.PIPE, stderr=subprocess.DEVNULL,
+                                stdin=subprocess.DEVNULL, timeout=60).stdout)
+    except (OSError, subprocess.SubprocessError):
+        pass
+    return h.hexdigest()
+
+
+def _module_stamp(skeleton: str, name: str, gen: dict) -> str:
+    h = hashlib.sha256()
+    h.update(skeleton.encode())
+    h.update(gen.get("key", "").encode())
+    h.update(dispatch_source(name, gen["types"]).encode())
+    return h.hexdigest()
 
 
 def _write_report(work_dir: pathlib.Path, report: dict) -> None:
@@ -819,4 +859,5 @@ def run(binary, requests, timeout_s=60, mem_limit_mb=4096, stack_mb=64, env=None
     return results
 
 
-__all__ = ["build", "run", "types_from_ast", "dispatch_source", "CODEC_OPS", "HIERARCHY_OPS", "ENUM_OPS"]
+__all__ = ["build", "run", "types_from_ast", "dispatch_source", "CODEC_OPS", "HIERARCHY_OPS", "ENUM_OPS",
+           "HARNESS_MODULE"]
